@@ -93,6 +93,21 @@ func loadProgram(repo, specDir string) (*Program, error) {
 		return nil, err
 	}
 	p.contracts = cs
+	// "implements T": the function is stored into variables of function type T, so it must satisfy T's typed contract
+	for _, c := range cs.byKey {
+		if tn := c.Props["implements"]; tn != "" {
+			tc := cs.typed[strings.Fields(tn)[0]]
+			if tc == nil {
+				return nil, fmt.Errorf("%s implements unknown typed contract %s", c.Key, tn)
+			}
+			for _, cl := range tc.Ensures {
+				cp := *cl
+				cp.Label = "implements." + strings.Fields(tn)[0] + "." + cl.Label
+				// result names of the typed contract are mapped positionally onto the function's
+				c.Ensures = append(c.Ensures, &cp)
+			}
+		}
+	}
 	return p, nil
 }
 
